@@ -720,6 +720,4 @@ func dispatch(c *vCase) (res obj) {
 }
 
 // verifResolveInOrder drives the resolver in a chosen visiting order (hook in package resolver).
-var verifResolveInOrder = func(c resolver.Config, db shared.DBNodeMap, order []string) error {
-	return errors.New("verif: ordered resolution hook not available")
-}
+var verifResolveInOrder = resolver.VerifResolveInOrder
